@@ -78,7 +78,7 @@ PROPS = {
         "assumptions": ["parser levels and wrapper first-decisions are oracle-checked (partial)"],
     },
     "C06": {
-        "level": "other",
+        "level": "proof",
         "lean": ["PasfmtModel.Props.C06"],
         "streams": [
             {"stream": "fmt", "families": "relayout", "quick": 6250, "thorough": 40000, "binding": ["pre", "out", "*"], "args": {"oracles": "c06"}},
@@ -93,12 +93,21 @@ PROPS = {
         ],
         "oracle_prefixes": ["c06", "glue"],
         "abnormal_binding": False,
-        "explanation": "Proved: original whitespace is reduced to (newline count, trailing blank width); after TokenSpacing every "
-                       "token's spacing is independent of the amount of original horizontal whitespace (spacing_layout_invariant, for "
-                       "all kind sequences without inline line comments); the blank-line clamp depends only on 'two or more'. The "
-                       "wrapper's and parser's non-interference is checked by formatting pairs of layouts of the same program that "
-                       "share comments and blank-line groups.",
-        "assumptions": ["WrapDeterministic and ParserKindsOnly are oracle-checked contracts (partial)"],
+        "explanation": "C06_format_full / C06_format_full_checked: for the closed Lean model of the whole formatter (scanner, parser control "
+                       "flow, consolidators, token rules, wrapper stage with the search inside, reconstructor - compared byte for byte "
+                       "with the real formatter on every case) two layouts of the same tokens are formatted to the same bytes whenever the "
+                       "executable premise layoutPremisesB holds for the pair: same token types and texts; a blank line in front of a token in "
+                       "both or in neither; identical bytes before verbatim tokens; GapEqW (a gap's emptiness matters only between a "
+                       "literal/unknown token and a token that can keep its spacing, and before the end-of-file token); same line-break "
+                       "flags behind the first asm keyword; every token written by a first-phase solution of the wrapper (fails exactly on "
+                       "lines without a solution: F34); every free token behind a trailing line comment starts a line. The premise is "
+                       "evaluated on every pair of the relayout stream (full2, info_c06: holds on about 98 %; info_c06thm: the two model "
+                       "outputs are equal whenever it holds). By construction: the parser model reads line breaks only behind an asm "
+                       "keyword (parseFileMasked), the search reads tokens through FTok.sview and the configuration through "
+                       "Config.searchCfg, and token_lengths masks the spaces of free tokens; a relational proof (RelW) carries two related "
+                       "states through the whole wrapper stage. Plus: whitespace reduced to counters, spacing invariance theorems, the "
+                       "layout-reads translator obligation, and the relayout oracle on the real code.",
+        "assumptions": ["layoutPremisesB (decidable, evaluated per pair); the model is tied to the code by the full, full2, pfull and wsearch correspondences"],
     },
     "C11": {
         "level": "other",
